@@ -14,6 +14,8 @@ import (
 	"net/url"
 	"os"
 	"path"
+	"path/filepath"
+	"runtime/debug"
 	"sort"
 	"strings"
 	"sync"
@@ -228,6 +230,15 @@ func seqMain(args []string) error {
 				}
 				rc := make(chan res, 1)
 				go func() {
+					defer func() {
+						// a panic of the harness itself (or of the code under verification on this goroutine): say which run it was and keep the run
+						if p := recover(); p != nil {
+							b, _ := json.Marshal(r)
+							path := filepath.Join(*dir, "panicked-run.json")
+							_ = os.WriteFile(path, b, 0o644)
+							rc <- res{nil, fmt.Errorf("panic: %v (run kept in %s)\n%s", p, path, debug.Stack())}
+						}
+					}()
 					ev, err := execSeqRun(base, r, *storeKind, *embed, *seed, *dir, *useHTTP, *withFaults)
 					rc <- res{ev, err}
 				}()
